@@ -314,7 +314,11 @@ var helloByProto = map[string][]byte{}
 func binaryStack(hs, idle string) bubble.StackOpts { return binaryStackR(hs, idle, "60s") }
 
 func binaryStackR(hs, idle, read string) bubble.StackOpts {
-	fingerproxy.VerifSetFlags(fingerproxy.VerifFlags{Probe: true, Flush: "100ms", Idle: idle, Read: read, Write: "60s", TLSHandshake: hs})
+	return binaryStackRW(hs, idle, read, "60s")
+}
+
+func binaryStackRW(hs, idle, read, write string) bubble.StackOpts {
+	fingerproxy.VerifSetFlags(fingerproxy.VerifFlags{Probe: true, Flush: "100ms", Idle: idle, Read: read, Write: write, TLSHandshake: hs})
 	return bubble.StackOpts{Build: func(ctx context.Context, h http.Handler, tc *tls.Config) *proxyserver.Server {
 		return fingerproxy.VerifDefaultProxyServer(ctx, h, tc)
 	}}
@@ -322,46 +326,50 @@ func binaryStackR(hs, idle, read string) bubble.StackOpts {
 
 func timeouts(t *testing.T, rep *ev.Report) {
 	// handshake timeout
-	for _, T := range []time.Duration{time.Second, 10 * time.Second} {
-		for _, stall := range []struct {
-			name string
-			k    int
-			raw  bool
-		}{{"no-bytes", 0, false}, {"3-bytes", 3, false}, {"header-only", 5, false}, {"mid-hello", 100, false}, {"hello-no-finished", -1, true}, {"hello-then-never-reads", -2, true}} {
-			desc := fmt.Sprintf("handshake-timeout T=%v stall=%s", T, stall.name)
-			res := bubble.Run(t, func() {
-				st := bubble.NewStack(binaryStack(T.String(), "180s"))
-				defer st.Shutdown()
-				var cl *bubble.Client
-				if stall.raw {
-					cl = st.DialRaw("staller", nil)
-					if stall.k == -2 {
-						// the client does not read either and its receive buffer is tiny: the proxy blocks WRITING its handshake flight
-						cl.Srv.SetWriteCap(64)
+	// (the other timeout flags of the binary in every on/off combination: the handshake timeout is its own flag)
+	for _, rw := range [][2]string{{"60s", "60s"}, {"0s", "60s"}, {"60s", "0s"}, {"0s", "0s"}} {
+		for _, T := range []time.Duration{time.Second, 10 * time.Second} {
+			for _, stall := range []struct {
+				name string
+				k    int
+				raw  bool
+			}{{"no-bytes", 0, false}, {"3-bytes", 3, false}, {"header-only", 5, false}, {"mid-hello", 100, false}, {"hello-no-finished", -1, true}, {"hello-then-never-reads", -2, true}} {
+				rw := rw
+				desc := fmt.Sprintf("handshake-timeout T=%v stall=%s (-timeout-http-read %s -timeout-http-write %s)", T, stall.name, rw[0], rw[1])
+				res := bubble.Run(t, func() {
+					st := bubble.NewStack(binaryStackRW(T.String(), "180s", rw[0], rw[1]))
+					defer st.Shutdown()
+					var cl *bubble.Client
+					if stall.raw {
+						cl = st.DialRaw("staller", nil)
+						if stall.k == -2 {
+							// the client does not read either and its receive buffer is tiny: the proxy blocks WRITING its handshake flight
+							cl.Srv.SetWriteCap(64)
+						}
+						cl.Raw.Write(helloByProto["h2"]) // complete ClientHello, then silence: the server answers and waits for Finished
+					} else {
+						h := faults.HelloH2
+						h.Manual = true
+						cl = st.Connect("staller", nil, h)
+						synctest.Wait()
+						cl.Raw.Deliver(stall.k)
 					}
-					cl.Raw.Write(helloByProto["h2"]) // complete ClientHello, then silence: the server answers and waits for Finished
-				} else {
-					h := faults.HelloH2
-					h.Manual = true
-					cl = st.Connect("staller", nil, h)
 					synctest.Wait()
-					cl.Raw.Deliver(stall.k)
+					rep.Add("evaluations", 1)
+					rep.Note("distinct_nontrivial", desc)
+					time.Sleep(T + time.Second)
+					synctest.Wait()
+					if cl.Srv.NumCloses() == 0 {
+						rep.Violate(map[string]any{"kind": "handshake-timeout-not-enforced", "stall": stall.name}, map[string]any{"T": T.String(), "stall": stall.name},
+							"%s: the stalled client was not disconnected %v after connecting", desc, T+time.Second)
+					}
+					if c := st.Counter(); c["0/"] != 1 {
+						rep.Violate(map[string]any{"kind": "handshake-timeout-not-counted"}, map[string]any{"T": T.String(), "stall": stall.name, "counter": fmt.Sprint(c)}, "%s: requests_total %v", desc, c)
+					}
+				})
+				if res.Panic != nil {
+					rep.HarnessError("%s: panic %v\n%s", desc, res.Panic, res.Stack)
 				}
-				synctest.Wait()
-				rep.Add("evaluations", 1)
-				rep.Note("distinct_nontrivial", desc)
-				time.Sleep(T + time.Second)
-				synctest.Wait()
-				if cl.Srv.NumCloses() == 0 {
-					rep.Violate(map[string]any{"kind": "handshake-timeout-not-enforced", "stall": stall.name}, map[string]any{"T": T.String(), "stall": stall.name},
-						"%s: the stalled client was not disconnected %v after connecting", desc, T+time.Second)
-				}
-				if c := st.Counter(); c["0/"] != 1 {
-					rep.Violate(map[string]any{"kind": "handshake-timeout-not-counted"}, map[string]any{"T": T.String(), "stall": stall.name, "counter": fmt.Sprint(c)}, "%s: requests_total %v", desc, c)
-				}
-			})
-			if res.Panic != nil {
-				rep.HarnessError("%s: panic %v\n%s", desc, res.Panic, res.Stack)
 			}
 		}
 	}
